@@ -26,7 +26,7 @@ pub struct Y {
 
 #[inline]
 fn addr<T>(r: &T) -> usize {
-    r as *const T as usize
+    tl::addr_of(r)
 }
 
 fn lib<KD: Kind, R>(cx: &mut Ctx, f: impl FnOnce() -> R) -> Result<R, Pk> {
